@@ -136,11 +136,16 @@ func (b *builderOptions) Build() (*Biscuit, error) {
 	checks := make([]datalog.Check, len(b.checks))
 	copy(checks, b.checks)
 
+	// split a copy: the builder keeps its table, which its facts, rules and
+	// checks index into, and can be built from again
+	baseSymbols := b.symbols.Clone()
+	blockSymbols := baseSymbols.SplitOff(b.symbolsStart)
+
 	return newBiscuit(
 		b.rootKey,
-		b.symbols,
+		baseSymbols,
 		&Block{
-			symbols: b.symbols.SplitOff(b.symbolsStart),
+			symbols: blockSymbols,
 			facts:   &facts,
 			rules:   rules,
 			checks:  checks,
